@@ -778,3 +778,72 @@ def generate(lang, rnd, size=None, sweep=None, stubs=False, min_lines=None, coun
     if lang == "Python":
         return gen_python_program(rnd, size, sweep, stubs, min_lines, count, names, name_share, extras)
     return gen_brace_program(lang, rnd, size, sweep, min_lines, count, names, name_share, extras)
+
+
+# ------------------------------------------------------------------------------------------------------------------
+# round 7: member positions. Programs WITHOUT expectations (for the totality / well-formedness streams, which judge the
+# real output by direct oracles): every kind of body a brace language has (type bodies, enum bodies, object literals,
+# namespaces, initialiser lists), with header-shaped members in every POSITION such a body admits - directly after the
+# opening brace, after a comma, after a semicolon, after a closing brace - with and without modifiers / return types:
+# modifier-less constructors as first member, enum constants with arguments and class bodies, object-literal methods.
+# ------------------------------------------------------------------------------------------------------------------
+
+MEMBER_CONTAINERS = {
+    "C": ["struct %s {", "enum %s {", "static struct ops %s = {", 'extern "C" {', "union %s {"],
+    "C++": ["class %s {", "struct %s {", "namespace %s {", "enum class %s {", 'extern "C" {', "auto %s = [] {"],
+    "C#": ["class %s {", "struct %s {", "interface %s {", "namespace %s {", "enum %s {", "var %s = new T {"],
+    "Java": ["class %s {", "public enum %s {", "interface %s {", "record %s(int a) {", "@interface %s {", "Object %s = new Object() {"],
+    "JavaScript": ["class %s {", "const %s = {", "export default {", "module.exports = {", "%s({"],
+    "TypeScript": ["class %s {", "const %s = {", "interface %s {", "enum %s {", "namespace %s {", "declare module %s {"],
+}
+_MEMBER_PARAMS = {"C": "int a, int b", "C++": "int a, int b", "C#": "int a, string b", "Java": "int a, String b", "JavaScript": "a, b", "TypeScript": "a: number, b: string"}
+_MEMBER_TYPED = {"C": "static int %s(%s) {", "C++": "virtual int %s(%s) {", "C#": "public int %s(%s) {", "Java": "double %s(%s) {", "JavaScript": "static %s(%s) {", "TypeScript": "private %s(%s): number {"}
+_MEMBER_ARGS = ['"+"', "1", "1, 2", "", '"{"', "'('"]
+
+
+def member_program(lang, rnd, kinds=None):
+    """-> text; see the section comment. Every container kind of the language (`kinds`: that many of them) once, in a random order; in each: a first
+    member directly after `{`, further members behind one separator kind (`,` / `;` / none) of the body"""
+    k = [0]
+
+    def name(prefix):
+        k[0] += 1
+        return "%s%d" % (prefix, k[0])
+    params = _MEMBER_PARAMS[lang]
+
+    def body(ind):
+        return ind + "  " + rnd.choice(["return a;", "this.a = a;", "x = a + b;", "if (a) { b = 1; }"]) + "\n"
+
+    def member(ind, cname, depth=0):
+        """one header-shaped member (text without the separator)"""
+        kind = rnd.choice(["bare", "bare", "constant", "constant", "typed", "ctor"])
+        if kind == "typed":
+            head = _MEMBER_TYPED[lang] % (name("m"), params)
+        elif kind == "ctor":
+            head = "%s(%s) {" % (cname, params)
+        elif kind == "constant":
+            head = "%s(%s) {" % (name("CONST").upper(), rnd.choice(_MEMBER_ARGS))
+        else:
+            head = "%s(%s) {" % (name("f"), params)
+        text = ind + head + "\n"
+        if kind == "constant" and depth < 2:
+            text += member(ind + "  ", cname, depth + 1) + "\n"      # the class body of an enum constant
+        else:
+            text += body(ind)
+        return text + ind + "}"
+    parts = []
+    containers = list(MEMBER_CONTAINERS[lang])
+    rnd.shuffle(containers)
+    for c in containers[:kinds]:
+        cname = name("K")
+        sep = rnd.choice([",", ",", ";", ""])
+        text = (c % cname if "%s" in c else c) + rnd.choice(["\n", "\n", " "])
+        n = rnd.randint(2, 3)
+        for i in range(n):
+            if i == 0 and rnd.random() < 0.25:
+                text += "  " + rnd.choice(["A", "A(1)", "int a", "a: 1"]) + (sep or ";") + "\n"       # a plain constant / field first
+            text += member("  ", cname).lstrip(" ") if text.endswith(" ") else member("  ", cname)
+            text += (sep if i < n - 1 else rnd.choice([sep, ";", ""])) + "\n"
+        text += rnd.choice(["}", "};", "});"]) + "\n"
+        parts.append(text)
+    return "".join(parts)
